@@ -290,7 +290,7 @@ PROPS = {
         "level_note": "A1 toolchain/libraries; A2 the simulator's LIST/WATCH (resourceVersion-ordered event log, one stream per watch) stands in for the API server; delivery is judged with timeouts of 5 s (a timeout is reported as a violation because every wait has a precise expected state); the race detector only reports races on interleavings that actually occur",
         "jobs": [
             {"name": "c18-exh", "pkg": INFORMER, "tests": ["TestVerifC18Exhaustive"], "shards": {"quick": 10, "thorough": 14}, "timeout": {"quick": 900, "thorough": 3400}},
-            {"name": "c18-rand", "pkg": INFORMER, "tests": ["TestVerifC18Random"], "checks": {"quick": 300, "thorough": 4800}, "shards": {"quick": 3, "thorough": 12}, "timeout": {"quick": 900, "thorough": 3400}},
+            {"name": "c18-rand", "pkg": INFORMER, "tests": ["TestVerifC18Random"], "checks": {"quick": 300, "thorough": 4800}, "shards": {"quick": 6, "thorough": 12}, "timeout": {"quick": 900, "thorough": 3400}},
             {"name": "c18-race", "pkg": INFORMER, "race": True, "tests": ["TestVerifC18Concurrent"], "checks": {"quick": 60, "thorough": 3000}, "shards": {"quick": 2, "thorough": 6}, "timeout": {"quick": 900, "thorough": 3400}},
         ],
     },
